@@ -846,7 +846,7 @@ class Collocator:
             )
 
         # Did we find any spatial collocations?
-        if not pairs.any():
+        if not pairs.size:
             return self.empty
 
         # Check now whether the spatial collocations really pass the temporal
@@ -1057,7 +1057,7 @@ class Collocator:
             original_pairs, intervals, distances,
             max_interval, max_distance
     ):
-        if not original_pairs.any():
+        if not original_pairs.size:
             return self.empty
 
         pairs = []
@@ -1257,7 +1257,7 @@ class Collocator:
         pairs = np.hstack(pairs_list)
 
         # No collocations were found.
-        if not pairs.any():
+        if not pairs.size:
             return self.no_pairs, self.no_distances
 
         # Stack the rest of the results together:
@@ -1314,7 +1314,7 @@ class Collocator:
         pairs, distances = self.index.query(*query_points, r=max_distance)
 
         # No collocations were found.
-        if not pairs.any():
+        if not pairs.size:
             # We return empty arrays to have consistent return values:
             return self.no_pairs, self.no_distances
 
